@@ -2,6 +2,7 @@ package uni
 
 import (
 	"context"
+	"fmt"
 	"sync"
 	"sync/atomic"
 	"time"
@@ -182,7 +183,7 @@ func (n *Net) SendRequest(ctx context.Context, addr string, req *tikvrpc.Request
 		fin(func() { c.RegionErr = act.RegErr })
 		return resp, err
 	}
-	resp, err := n.inner.SendRequest(ctx, addr, req, timeout)
+	resp, err := n.forward(ctx, addr, req, timeout, c)
 	if act.After != nil {
 		act.After()
 	}
@@ -213,6 +214,20 @@ func (n *Net) SendRequest(ctx context.Context, addr string, req *tikvrpc.Request
 	}
 	fin(record)
 	return resp, err
+}
+
+// forward delivers the request; a panic of the in-process back-end (the mock
+// stores panic on requests they consider impossible, e.g. "key not in
+// region") is recorded with the request that caused it and turned into a
+// transport error so that the other monitors of this process survive.
+func (n *Net) forward(ctx context.Context, addr string, req *tikvrpc.Request, timeout time.Duration, c *Call) (resp *tikvrpc.Response, err error) {
+	defer func() {
+		if p := recover(); p != nil {
+			n.u.notePanic(fmt.Sprintf("%v", p), c, req)
+			resp, err = nil, errors.Errorf("verif: back-end panic: %v", p)
+		}
+	}()
+	return n.inner.SendRequest(ctx, addr, req, timeout)
 }
 
 // lateQueue holds deliver-late closures.
